@@ -65,8 +65,8 @@ def sig_present(data):
         s.add('vhdx')
     if data[:4] == b'KDMV':
         s.add('vmdk')
-    elif b'createtype="' in data[:(1 << 20)].lower():
-        s.add('vmdk')          # text descriptor form
+    elif b'createtype="' in data[:(1 << 20)].split(b'\x00', 1)[0].lower():
+        s.add('vmdk')          # text descriptor form: the descriptor is text, it ends at the first NUL
     if data[:6] == b'LUKS\xba\xbe':
         s.add('luks')
     if data[0x40:0x44] == b'\x7f\x10\xda\xbe':
@@ -161,7 +161,48 @@ def recipes(ctx):
              b'KDMV' + bytes(2000), b'vhdxfile' + bytes(BIG),
              F.overlay(b'KDMV' + bytes(1020), (446, B.mbr([B.PTE_LINUX]).data[446:512])),
              F.overlay(b'vhdxfile' + bytes(BIG), (446, B.mbr([B.PTE_LINUX]).data[446:512]))]
+    # text, then a NUL, then ...: where the descriptor text ends
+    T = B.raw('text', 512).data
+    TC = (b'# Disk DescriptorFile\nversion=1\ncreateType="monolithicSparse"\nRW 16 SPARSE "a.vmdk"\n' +
+          b'# pad\n' * 90)[:512]
+    CT = b'createType="monolithicSparse"\nRW 1 SPARSE "a"\n'
+    for head in (T, TC, T[:300], TC[:300]):
+        for tail in (b'', b'\x00', b'\x00\x80', b'\x00' + CT, b'\x00' * 100 + CT, b'\x80', b'\x00' + T,
+                     b'\x00\x80' + bytes(600), b'\x00' + CT + bytes(3000)):
+            extra.append(head + tail)
+    # containers that are valid up to a second-level structure (an inspector fails while one of
+    # its regions is still open), alone and with a second signature
+    vm = [w for w in F.wellformed(ctx.seed, False) if w.fmt == 'vmdk']
+    for w in vm[:2]:
+        for m in F.field_mutations(w, ctx.seed):
+            extra.append(m.data)
+    for ver in (1, 3, 9):
+        for gd in (None, B.GD_AT_END):
+            for ds in (0, 1, 2):
+                h = B.vmdk_header(2048, ver, ds, 1, gd)
+                body = h + B.vmdk_descriptor() + bytes(2048)
+                extra.append(body)
+                extra.append(F.overlay(body, (446, B.mbr([B.PTE_LINUX]).data[446:512])))
+    from vlib.checks.c02 import FOOTER_OVERS
+    for over, _c in FOOTER_OVERS:
+        o = dict(over)
+        if o.get('version') == 'other':
+            o['version'] = 2
+        d = B.vmdk(footer='good', footer_over=o, ctype='streamOptimized', desc_num=1, grain_fill=64).data
+        extra.append(d)
+        extra.append(F.overlay(d, (446, B.mbr([B.PTE_LINUX]).data[446:512])))
+    vx = [w for w in F.wellformed(ctx.seed, False) if w.fmt == 'vhdx'][:1]
+    for w in vx:
+        muts = F.field_mutations(w, ctx.seed)
+        for m in (muts if ctx.thorough else muts[::6]):
+            extra.append(m.data)
+            if ctx.thorough:
+                extra.append(F.overlay(m.data, (446, B.mbr([B.PTE_LINUX]).data[446:512])))
+    seen = set()
     for i, d in enumerate(extra):
+        if d in seen:
+            continue
+        seen.add(d)
         out.append(('image', d, 'extra%d' % i, []))
     return out
 
